@@ -88,9 +88,9 @@ pub use handler::ProtocolSupport;
 use libp2p_core::{ConnectedPoint, Endpoint, Multiaddr, transport::PortUse};
 use libp2p_identity::PeerId;
 use libp2p_swarm::{
-    ConnectionDenied, ConnectionHandler, ConnectionId, DialError, NetworkBehaviour, NotifyHandler,
-    PeerAddresses, THandler, THandlerInEvent, THandlerOutEvent, ToSwarm,
-    behaviour::{AddressChange, ConnectionClosed, DialFailure, FromSwarm},
+    ConnectionDenied, ConnectionHandler, ConnectionId, DialError, ListenError, NetworkBehaviour,
+    NotifyHandler, PeerAddresses, THandler, THandlerInEvent, THandlerOutEvent, ToSwarm,
+    behaviour::{AddressChange, ConnectionClosed, DialFailure, FromSwarm, ListenFailure},
     dial_opts::DialOpts,
 };
 use smallvec::SmallVec;
@@ -713,6 +713,9 @@ where
             // Dial-condition fails because there is already another ongoing dial.
             return;
         }
+        if let (Some(peer), DialError::Denied { .. }) = (peer_id, error) {
+            self.on_connection_denied(peer, connection_id, || OutboundFailure::DialFailure);
+        }
         if let Some(peer) = peer_id {
             // If there are pending outgoing requests when a dial failure occurs,
             // it is implied that we are not connected to the peer, since pending
@@ -731,6 +734,38 @@ where
                         }));
                 }
             }
+        }
+    }
+
+    /// A connection was denied (by another behaviour) after [`Behaviour::preload_new_handler`]
+    /// had registered it and handed pending requests to its handler. Such a connection never
+    /// becomes established and no `ConnectionClosed` follows: forget it and fail the requests
+    /// that went down with the handler.
+    fn on_connection_denied(
+        &mut self,
+        peer: PeerId,
+        connection_id: ConnectionId,
+        error: fn() -> OutboundFailure,
+    ) {
+        let Some(connections) = self.connected.get_mut(&peer) else {
+            return;
+        };
+        let Some(pos) = connections.iter().position(|c| c.id == connection_id) else {
+            return;
+        };
+        let connection = connections.remove(pos);
+        if connections.is_empty() {
+            self.connected.remove(&peer);
+        }
+
+        for request_id in connection.pending_outbound_responses {
+            self.pending_events
+                .push_back(ToSwarm::GenerateEvent(Event::OutboundFailure {
+                    peer,
+                    connection_id,
+                    request_id,
+                    error: error(),
+                }));
         }
     }
 
@@ -842,6 +877,16 @@ where
             }
             FromSwarm::AddressChange(address_change) => self.on_address_change(address_change),
             FromSwarm::DialFailure(dial_failure) => self.on_dial_failure(dial_failure),
+            FromSwarm::ListenFailure(ListenFailure {
+                peer_id: Some(peer),
+                connection_id,
+                error: ListenError::Denied { .. },
+                ..
+            }) => {
+                self.on_connection_denied(peer, connection_id, || {
+                    OutboundFailure::ConnectionClosed
+                });
+            }
             _ => {}
         }
     }
